@@ -575,7 +575,7 @@ def _twod(task):
           "IrregularlyBin": lambda c: list(range(len(c) + 1))}[kind]
     cells = list(itertools.product(kx(cfgx), kx(cfgy)))
     ws = [0.75, 2.0, 0.25]  # (fractional: a grid of integers would truncate them)
-    maxn = 2 if tier == "quick" else 3
+    maxn = 2 if (tier == "quick" and kind != "SparselyBin") else 3  # (a sparse grid grows with every new slice: three cells)
     for n in range(0, maxn + 1):
         for combo in itertools.combinations(cells, n):
             cs = [(c, ws[i]) for i, c in enumerate(combo)]
